@@ -75,6 +75,8 @@ pub struct Parser<'a, 'g> {
     pub(crate) marker_line: u32,
     pub(crate) proto_base: u32,
     pub(crate) ret_pending: Option<usize>,
+    /// StrId (relative to the interner base) -> global id, to avoid re-hashing names
+    pub(crate) gid_cache: Vec<u32>,
 }
 
 pub type PResult<T> = Result<T, Box<LoadError>>;
@@ -102,6 +104,7 @@ impl<'a, 'g> Parser<'a, 'g> {
             marker_line,
             proto_base,
             ret_pending: None,
+            gid_cache: Vec::new(),
         }
     }
     pub(crate) fn advance(&mut self) -> PResult<()> {
@@ -331,8 +334,15 @@ impl<'a, 'g> Parser<'a, 'g> {
         if let Some(idx) = self.find_upval(fi, name)? {
             return Ok(Expr::Upval(UpRef { idx, mon, name }));
         }
-        let bytes: Vec<u8> = self.lx.interner.get(name).to_vec();
-        let gid = self.globals.gid(&bytes);
+        let rel = (name - self.lx.interner.base) as usize;
+        if self.gid_cache.len() <= rel {
+            self.gid_cache.resize(rel + 1, u32::MAX);
+        }
+        let mut gid = self.gid_cache[rel];
+        if gid == u32::MAX {
+            gid = self.globals.gid(self.lx.interner.get(name));
+            self.gid_cache[rel] = gid;
+        }
         Ok(Expr::Global(GlobalRef { gid, mon, name }))
     }
 
